@@ -43,6 +43,78 @@ def standalone_problem(piece, cat):
         return f'extracted piece does not parse on its own: {e.msg}: {src[:80]!r}'
 
 
+# operators / keywords that are counted: the ones that are never a separator, a delimiter or the introducer of a field
+# (`=`, `@`, `->`, `as`, `*`, `**`, `:`, `in`, `for`, `import` ... go with the slot, not with the element that is moved)
+_REAL_OPS = {'+', '-', '/', '//', '%', '<<', '>>', '&', '^', '~', '<', '>', '<=', '>=', '==', '!=', 'not', 'lambda', 'yield',
+             'await', 'is', 'None', 'True', 'False', '...'}
+_CMP_TOKENS = {'<', '>', '<=', '>=', '==', '!=', 'in', 'not', 'is'}
+# documented dependent deletions: removing the type of a handler removes its name, removing Raise.exc removes the cause
+DEPENDENT_SLOTS = ('ExceptHandler.type', 'Raise.exc')
+
+
+def conservation_problem(orig_src, rem_src, piece_src, container_cls=''):
+    """C07 last clause: the tokens and comments of the original are exactly those of the remainder plus those of the
+    extracted piece, apart from separators, parentheses / brackets and elif/else keywords the move itself requires.
+    Multiset comparison of identifiers, literals, comments, and of the operators / keywords that are not separators;
+    multi-line strings up to re-indentation of their continuation lines (docstrings).  None when conserved or when one
+    of the three texts does not tokenize."""
+    import collections
+    import keyword
+    import tokenize
+    from contracts.b_frame import toks
+
+    def count(src):
+        t = toks(src)
+        if t is None:
+            return None
+        c = collections.Counter()
+        for x in t:
+            if x.type == tokenize.COMMENT:
+                c[('#', x.string.rstrip())] += 1
+            elif x.type == tokenize.OP or (x.type == tokenize.NAME and keyword.iskeyword(x.string)):
+                if x.string not in _REAL_OPS or (container_cls == 'Compare' and x.string in _CMP_TOKENS):
+                    continue
+                c[('op', x.string)] += 1
+            elif x.type == tokenize.STRING and '\n' in x.string:
+                c[('s', '\n'.join(y.strip() for y in x.string.split('\n')))] += 1
+            elif x.type in (tokenize.NAME, tokenize.NUMBER, tokenize.STRING) or x.string.strip():
+                c[('t', x.string)] += 1
+        return c
+    o, r, p = count(orig_src), count(rem_src), count(piece_src)
+    if o is None or r is None or p is None:
+        return None
+    if o == r + p:
+        return None
+    lost = o - (r + p)
+    extra = (r + p) - o
+    return f'lost {sorted(lost.elements())[:6]} gained {sorted(extra.elements())[:6]}'
+
+
+def _loss_kind(q, src0, node):
+    """classify a conservation failure for the finding key: '.leading_comment' when the only difference is that own-line
+    comments of the block directly above the element (its leading trivia) are in neither result"""
+    import re
+    m = re.match(r"lost \[(.*)\] gained \[\]$", q)
+    if not m:
+        return ''
+    lost = re.findall(r"\('(.)', '((?:[^'\\\\]|\\\\.)*)'\)", m.group(1))
+    if not lost or any(k != '#' for k, _ in lost):
+        return ''
+    try:
+        ln = node.pars().ln if node.loc is not None else None
+    except Exception:
+        ln = None
+    if ln is None:
+        return ''
+    lines = src0.split('\n')
+    above = []
+    i = ln - 1
+    while i >= 0 and lines[i].strip().startswith('#'):
+        above.append(lines[i].strip())
+        i -= 1
+    return '.leading_comment' if all(t in above for _, t in lost) else ''
+
+
 def copy_step(sw, path, cat):
     root = sw.fresh()
     node = follow(root, path)
@@ -132,6 +204,12 @@ def copy_step(sw, path, cat):
         if cutp.src != piece.src or ast.dump(cutp.a) != ast.dump(piece.a):
             sw.fail('C07', key + ':cut_piece', 'cut() returns something different from what copy() returns',
                     cut=cutp.src[:200], copy=piece.src[:200])
+        if not in_fstr and not slot.startswith(DEPENDENT_SLOTS):
+            q = conservation_problem(src0, r1.src, cutp.src)
+            if q:
+                kind = _loss_kind(q, src0, node)
+                sw.fail('C07', key + ':cut_conservation' + kind, f'cut(): tokens/comments of the original are not those of the '
+                        f'remainder plus those of the piece: {q}', after_cut=r1.src[:300], piece_src=cutp.src[:200])
 
 
 def copy_slices(sw, root, quick, rnd):
@@ -177,8 +255,50 @@ def copy_slices(sw, root, quick, rnd):
                 if cutp.src != piece.src:
                     sw.fail('C07', key + ':cut_piece', 'slice cut returns something different from slice copy',
                             cut=cutp.src[:200], copy=piece.src[:200])
+                q = conservation_problem(src0, r1.src, cutp.src, node.a.__class__.__name__)
+                if q:
+                    sw.fail('C07', key + ':cut_conservation', 'slice cut: tokens/comments of the original are not those '
+                            f'of the remainder plus those of the piece: {q}', after_cut=r1.src[:300], piece_src=cutp.src[:200])
+                nested_slices(sw, cutp, key, rnd)
             elif c_ok != d_ok:
                 sw.fail('C07', key + ':cut_vs_delete', f'slice cut ok={c_ok} but slice delete ok={d_ok}')
+
+
+def nested_slices(sw, piece, key, rnd):
+    """the extracted slice is a tree of its own (a root-level slice container): copying from it must not disturb it and
+    cutting from it must conserve tokens and comments too"""
+    fields = [(fld, v) for fld in piece.a._fields if isinstance(v := getattr(piece.a, fld, None), list) and v
+              and all(isinstance(e, ast.AST) for e in v)]
+    if not fields or piece.a.__class__.__name__ == 'Module' and len(fields[0][1]) > 3:
+        return
+    fld, v = fields[0]
+    n = len(v)
+    idxs = [(i, j) for i in range(n + 1) for j in range(i + 1, n + 1)]
+    if len(idxs) > 3:
+        idxs = [(n - 1, n), (0, n)] + rnd.sample(idxs, 1)
+    for i, j in idxs:
+        try:
+            p2 = piece.copy()
+        except Exception:
+            return
+        src0, d0 = p2.src, dump(p2.a)
+        sw.ev += 1
+        try:
+            sub = p2.get_slice(i, j, fld)
+        except Exception:
+            continue
+        if p2.src != src0 or dump(p2.a) != d0:
+            sw.fail('C07', key + f':nested[{i}:{j}]:disturbed', f'get_slice({i}, {j}, {fld!r}) on the extracted slice '
+                    f'{src0[:60]!r} changed the tree it read from')
+            continue
+        try:
+            sub = p2.get_slice(i, j, fld, cut=True)
+        except Exception:
+            continue
+        q = conservation_problem(src0, p2.src, sub.src, p2.a.__class__.__name__)
+        if q:
+            sw.fail('C07', key + f':nested[{i}:{j}]:cut_conservation', f'cut [{i}:{j}] from the extracted slice {src0[:80]!r}: '
+                    f'tokens/comments not conserved: {q}', after_cut=p2.src[:200], piece_src=sub.src[:200])
 
 
 DOC_TEXTS = ['x', 'two words', "it's", 'say "hi"', 'back\\slash', 'tab\there', 'é ü', "'''", '"""', 'end\\',
